@@ -241,7 +241,7 @@ Proof. vm_compute. reflexivity. Qed.
 
 (** A filter that keeps only key "a" merges sets that differ in other keys. *)
 Example ex_filter :
-  s_run {| s_kind := AKHist false false; s_delta := true; s_limit := 0; s_filter := Some (false, [str "a"]) |}
+  s_run {| s_kind := AKHist false false; s_delta := true; s_limit := 0; s_filter := Some (fkeys false [str "a"]) |}
         [AMeasure [(str "a", str "i1"); (str "b", str "i1")] 5; AMeasure [(str "a", str "i1"); (str "b", str "i2")] 7;
          AMeasure [(str "b", str "i2")] 1; ACollect] s_empty =
   [[pt [(str "a", str "i1")] 12 2; pt [] 1 1]].
